@@ -16,7 +16,31 @@ TOKEN = [K("tokenize.py::Token.__getitem__"), K("tokenize.py::Token.__add__"),
          K("tokenize.py::Token.rstrip"), K("tokenize.py::Token.strip"),
          K("tokenize.py::Token.location")]
 
+REPEAT = [K("tal.py::RepeatItem." + m) for m in
+          ("index", "number", "start", "end", "odd", "even", "parity", "_letter", "Letter", "Roman")]
+
+COMMON_ASSUMPTIONS = [
+    "Python ints are mathematical integers (exact, no machine arithmetic)",
+    "str is a sequence of code points (z3 String); code points above 0x2FFFF and lone surrogates "
+    "are not modelled",
+]
+TECH = ("contract-based deductive verification: sidecar pre/postconditions on the real functions, "
+        "VCs generated from /repo's AST by pyvc, discharged by z3/cvc5")
+
 PROPS = {
+    "C08": {
+        "technique": TECH,
+        "level_text": "index/number/start/end/odd/even/parity/letter/Letter/Roman of tal.RepeatItem are "
+                      "proved equal to spec functions of the number of items consumed, for every "
+                      "position (unbounded: beyond 26 and 3999).",
+        "level_note": "Trusted: list_iterator.__length_hint__ axiom, str/int builtin models "
+                      "(conformance-tested). Not decided yet: the emitted repeat loop (K3), "
+                      "RepeatDict.__call__, whitespace separator computation.",
+        "units": REPEAT,
+        "not_decided": ["emitted loop code and separators (pending K3)", "RepeatDict.__call__",
+                        "roman()/lower() case mapping"],
+        "assumptions": COMMON_ASSUMPTIONS,
+    },
     "C11": {
         "technique": "contract-based deductive verification: sidecar pre/postconditions on the real "
                      "functions, VCs generated from /repo's AST by pyvc, discharged by z3/cvc5",
